@@ -36,6 +36,11 @@ CHECKS = {
    "Lookup through the packed arrays with default-action and default-goto vectors must return exactly the dense cell, for all cells of all grammars of the classes and all matrices of the stated shapes.",
    "Trusted: the transliteration of Action() (bound to generated code by the Action() dump in the conformance phase).",
    "3/C05"),
+ "C04": ("exploration",
+   "exhaustive enumeration: every conflicting rule set of small classes x every precedence decoration (levels, associativities, %prec, both rule orders) compared cell by cell with the resolution prescribed by the property; every operator table (<=3 binary operators, <=3 levels, unary minus via %prec, parentheses) x every sentence up to the bound compared with a precedence-climbing reference, on yaccgo's table and on generated parsers",
+   "Cell level: all two-way conflict cells of all decorated grammars must hold the prescribed winner (higher precedence; equal: left reduces, right shifts, nonassoc errors; otherwise shift / earlier rule). Expression level: every expression groups as the declarations say. Cells the statement leaves open are only required to hold a candidate or error.",
+   "Trusted: reference conflict candidates (LR(1) merge), the transcription of the resolution rule, the precedence-climbing parser. Not judged: cells with more than two candidates, reduce/reduce where both rules carry precedence, rules whose precedence would come from a non-last terminal.",
+   "3/C04"),
  "C06": ("model_checking",
    "same explicit-state exploration with an extra unknown-token input symbol; oracle: non-accepting runs end in the documented error outcome (never index error / garbage action); on conflict-free grammars the first non-viable token (Earley) is rejected unshifted after finitely many reductions; outcome class and fetch count replayed on generated parsers",
    "All grammars x all strings up to the bound including an unknown token code: rejected means the documented channel; for LALR(1) grammars rejection happens exactly at the first token that cannot continue any sentence.",
